@@ -205,3 +205,29 @@ def complementary_scene(rng, bits, ndim=2):
         pos2 = (pos[0] - 1,) + pos[1:]
         pred[pos2], ref[pos2] = pa, ra
     return pred, ref
+
+
+def shared_value_scene(rng, dtype=np.uint16):
+    """unmatched-instance scene in which prediction label values also occur as reference label values, crosswise: two
+    references, three predictions — one prediction clearly matches each reference, the third overlaps weakly or not
+    at all and stays unmatched, and it carries the label value of a reference (so an unmatched prediction that kept
+    its own label would merge with a matched one); one prediction reaches far beyond its reference's bounding box"""
+    H, W = rng.randint(8, 11), rng.randint(16, 22)
+    ref = np.zeros((H, W), dtype)
+    pred = np.zeros((H, W), dtype)
+    vals = rng.sample([1, 2, 3, 7], 3)
+    rA, rB = vals[0], vals[1]
+    if rng.random() < 0.5:
+        pA, pB, pC = rB, vals[2], rA        # the unmatched prediction carries the label of the reference that pA is matched to
+    else:
+        pA, pB, pC = vals[2], rA, rB        # ... or of the reference that pB is matched to; pB carries the other reference's value
+    ref[1:5, 1:5] = rA
+    pred[1:5, 1:4] = pA                      # IoU 12/16
+    ref[1:4, 8:11] = rB
+    pred[1:4, 8:10] = pB                     # IoU 6/9
+    pred[1:4, 10:10 + rng.choice([1, 1, 8])] = pB     # sometimes reaching far beyond the reference's box: IoU drops below 1/2
+    y = rng.randint(6, H - 2)
+    pred[y:y + 2, 2:5] = pC                  # overlaps nothing: unmatched
+    if len({pA, pB, pC}) < 3:
+        return None
+    return pred, ref
